@@ -761,3 +761,61 @@ impl Server {
         }
     }
 }
+
+/// Read-only snapshot of one tracked client (verification builds only).
+#[cfg(uflow_verif)]
+#[derive(Clone, Debug, PartialEq)]
+pub struct RemoteClientProbe {
+    pub address: net::SocketAddr,
+    /// 0 = pending, 1 = active, 2 = closing, 3 = closed, 4 = fin
+    pub state: u8,
+    pub hc: Option<crate::verif::HcProbe>,
+    pub timeout_time_ms: Option<u64>,
+    pub local_nonce: Option<u32>,
+    pub remote_nonce: Option<u32>,
+}
+
+/// Read-only snapshot of a server's internal state (verification builds only).
+#[cfg(uflow_verif)]
+#[derive(Clone, Debug, PartialEq)]
+pub struct ServerProbe {
+    pub clients_len: usize,
+    pub active_clients_len: usize,
+    pub timer_queue_len: usize,
+    pub now_ms: u64,
+    /// Tracked clients, sorted by address
+    pub clients: Vec<RemoteClientProbe>,
+}
+
+#[cfg(uflow_verif)]
+#[allow(missing_docs)]
+impl Server {
+    pub fn verif_probe(&self) -> ServerProbe {
+        let mut clients: Vec<RemoteClientProbe> = self.clients.iter().map(|(addr, client_rc)| {
+            let client = client_rc.borrow();
+            match client.state {
+                remote_client::State::Pending(ref state) => RemoteClientProbe {
+                    address: *addr, state: 0, hc: None, timeout_time_ms: None,
+                    local_nonce: Some(state.local_nonce), remote_nonce: Some(state.remote_nonce),
+                },
+                remote_client::State::Active(ref state) => RemoteClientProbe {
+                    address: *addr, state: 1, hc: Some(state.half_connection.verif_probe()),
+                    timeout_time_ms: Some(state.timeout_time_ms), local_nonce: None, remote_nonce: None,
+                },
+                remote_client::State::Closing => RemoteClientProbe { address: *addr, state: 2, hc: None, timeout_time_ms: None, local_nonce: None, remote_nonce: None },
+                remote_client::State::Closed => RemoteClientProbe { address: *addr, state: 3, hc: None, timeout_time_ms: None, local_nonce: None, remote_nonce: None },
+                remote_client::State::Fin => RemoteClientProbe { address: *addr, state: 4, hc: None, timeout_time_ms: None, local_nonce: None, remote_nonce: None },
+            }
+        }).collect();
+
+        clients.sort_by(|a, b| a.address.cmp(&b.address));
+
+        ServerProbe {
+            clients_len: self.clients.len(),
+            active_clients_len: self.active_clients.len(),
+            timer_queue_len: self.client_events.len(),
+            now_ms: self.now_ms(),
+            clients,
+        }
+    }
+}
